@@ -30,6 +30,24 @@ theorem body_fromInt64 : CodecNum.fromInt64 = fromInt64 := rfl
 theorem body_fromUInt64 : CodecNum.fromUInt64 = fromUInt64 := rfl
 theorem body_fromDouble : CodecNum.fromDouble = fromDouble := rfl
 
+/-- the eight `<cctype>` wrappers (String.cpp:168-175) hand the BYTE value (`(uchar&)c`) to the libc function of the "C" locale
+    definitions `cIs*` the driver prints on every `cls` line, and test `!= 0` -/
+theorem body_ctype_wrappers :
+    CodecNum.isAlphanumeric = cIsAlnum ∧ CodecNum.isAlpha = cIsAlpha ∧ CodecNum.isDigit = cIsDigit ∧
+    CodecNum.isLowerCase = cIsLower ∧ CodecNum.isPrint = cIsPrint ∧ CodecNum.isPunct = cIsPunct ∧
+    CodecNum.isUpperCase = cIsUpper ∧ CodecNum.isHexDigit = cIsXDigit :=
+  ⟨rfl, rfl, rfl, rfl, rfl, rfl, rfl, rfl⟩
+
+/-
+  OPEN (not translated, hand translation tied by the correspondence run only):
+  * `String::printf` (String.cpp:17-56) and `String::fromPrintf` (58-97): the two-attempt algorithm over `vsnprintf` with a
+    `va_list` - outside the translated subset; the model functions `printf` / `fromPrintf` mirror it by hand
+    (`printf_text`, `integer_text_first_try`, `double_text_second_try` are about that hand translation).
+  * `cstr`: what `operator const char*` hands to libc (the chars up to the first NUL) is the model's reading of area Str.
+  * the libc functions themselves (`atoi`, `strtoul`, `vsnprintf`, ...) are DEFINITIONS in Model.lean, compared with the real libc
+    on the `lcs` / `lcf` / `cls` / `fd` lines of every run.
+-/
+
 /-- The boundary rows of the numeric clause, evaluated on the model (the same texts are in corpus/C18/unsigned-negation.txt and
     run through the real `String::to*` and through direct calls of the real libc on every check): the negation rule of
     `strtoul`/`strtoull` ("-1" is the maximum, "-18446744073709551615" is 1), saturation at `ULLONG_MAX`, `LLONG_MIN/MAX`,
